@@ -17,13 +17,14 @@ import (
 
 // OpResult is the real outcome of one scripted operation.
 type OpResult struct {
-	C   int       `json:"c"`
-	I   int       `json:"i"`
-	Op  lakeh.JOp `json:"op"`
-	Res string    `json:"res"`
-	Err string    `json:"err,omitempty"`
-	ID  string    `json:"id,omitempty"` // commit / pool id returned
-	UID int       `json:"uid,omitempty"`
+	C    int       `json:"c"`
+	I    int       `json:"i"`
+	Op   lakeh.JOp `json:"op"`
+	Res  string    `json:"res"`
+	Err  string    `json:"err,omitempty"`
+	ID   string    `json:"id,omitempty"` // commit / pool id returned
+	UID  int       `json:"uid,omitempty"`
+	Rows []int     `json:"rows,omitempty"` // scan: the u values returned
 }
 
 // Crashed reports whether the operation was cut short by the client's fail-stop.
@@ -41,6 +42,18 @@ type Witness struct {
 type Runner struct {
 	C   *core.Ctx
 	Ctx context.Context
+	// Setup, if set, prepares pool p beyond the default single initial value.
+	Setup func(ctx context.Context, lk *lakeh.Lake, pool ksuid.KSUID) error
+	// Thresh is pool p's object threshold (0 = default).
+	Thresh int64
+	// Tip, if set, realizes the k-th "tip" operation of client c (default: load one value).
+	Tip func(ctx context.Context, lk *lakeh.Lake, pool ksuid.KSUID, c, k int, branch string, uid int) (ksuid.KSUID, error)
+	// CommitData, filled by Execute: real commit id (string) -> sorted u values visible at it (read cold after the run).
+	CommitData map[string][]int
+	MainTip    string
+	// SkipTipData disables the "value of every acknowledged tip is visible" oracle
+	// (for runs whose tips are not loads).
+	SkipTipData bool
 }
 
 // run one schedule on the real lake; returns the real results and the list of oracle failures.
@@ -51,11 +64,15 @@ func (r *Runner) Execute(sc *lakeh.JScenario, sched []lakeh.GateStep, want *lake
 	if err != nil {
 		return nil, nil, "", err
 	}
-	poolP, err := lk0.CreatePool(ctx, "p", "k", "asc", 0, 0)
+	poolP, err := lk0.CreatePool(ctx, "p", "k", "asc", 0, r.Thresh)
 	if err != nil {
 		return nil, nil, "", err
 	}
-	if _, err := lk0.LoadZSON(ctx, poolP, "main", "{k:0,u:0}"); err != nil {
+	if r.Setup != nil {
+		if err := r.Setup(ctx, lk0, poolP); err != nil {
+			return nil, nil, "", err
+		}
+	} else if _, err := lk0.LoadZSON(ctx, poolP, "main", "{k:0,u:0}"); err != nil {
 		return nil, nil, "", err
 	}
 	ids := map[int]ksuid.KSUID{1: poolP} // spec id -> real pool id
@@ -114,8 +131,30 @@ func (r *Runner) Execute(sc *lakeh.JScenario, sched []lakeh.GateStep, want *lake
 				switch op.K {
 				case "tip":
 					var cm ksuid.KSUID
-					cm, e = lk.LoadZSON(ctx, poolP, op.Key, fmt.Sprintf("{k:%d,u:%d}", res.UID, res.UID))
+					if r.Tip != nil {
+						cm, e = r.Tip(ctx, lk, poolP, i, k+1, op.Key, res.UID)
+					} else {
+						cm, e = lk.LoadZSON(ctx, poolP, op.Key, fmt.Sprintf("{k:%d,u:%d}", res.UID, res.UID))
+					}
 					res.ID = cm.String()
+				case "scan":
+					q, qe := lk.API.Query(ctx, nil, "from p@"+op.Key)
+					e = qe
+					if e == nil {
+						if e = gate.Point(i, "fin"); e == nil {
+							var rows []string
+							rows, e = lakeh.Drain(q)
+							for _, row := range rows {
+								var kk, u int
+								if _, err := fmt.Sscanf(row, "{k:%d,u:%d}", &kk, &u); err == nil {
+									res.Rows = append(res.Rows, u)
+								}
+							}
+							sort.Ints(res.Rows)
+						} else {
+							q.Pull(true)
+						}
+					}
 				case "insert":
 					if sc.Journal == "branches" {
 						e = lk.API.CreateBranch(ctx, poolP, op.Key, mainTip)
@@ -202,6 +241,31 @@ func (r *Runner) Execute(sc *lakeh.JScenario, sched []lakeh.GateStep, want *lake
 			}
 		}
 	}
+	r.MainTip = mainTip.String()
+	r.CommitData = map[string][]int{}
+	if obs, err := lakeh.Open(ctx, store, 98, nil); err == nil {
+		want := map[string]bool{r.MainTip: true}
+		for _, g := range results {
+			if g.Op.K == "tip" && g.Res == "ok" {
+				want[g.ID] = true
+			}
+		}
+		for id := range want {
+			rows, err := obs.Query(ctx, "from p@"+id)
+			if err != nil {
+				continue
+			}
+			var us []int
+			for _, row := range rows {
+				var kk, u int
+				if _, err := fmt.Sscanf(row, "{k:%d,u:%d}", &kk, &u); err == nil {
+					us = append(us, u)
+				}
+			}
+			sort.Ints(us)
+			r.CommitData[id] = us
+		}
+	}
 	fails = r.Oracles(sc, store, poolP, ids, results)
 	return results, fails, drift, nil
 }
@@ -257,7 +321,7 @@ func (r *Runner) Oracles(sc *lakeh.JScenario, store *lakeh.MemStore, poolP ksuid
 				have[u]++
 			}
 			for _, g := range results {
-				if g.Op.K != "tip" || g.Op.Key != b || g.Crashed() {
+				if g.Op.K != "tip" || g.Op.Key != b || g.Crashed() || r.SkipTipData {
 					continue
 				}
 				switch {
@@ -269,7 +333,7 @@ func (r *Runner) Oracles(sc *lakeh.JScenario, store *lakeh.MemStore, poolP ksuid
 			}
 		}
 		// usable: a new client can still commit to main and create a branch
-		if _, err := obs.LoadZSON(ctx, poolP, "main", "{k:999,u:999}"); err != nil {
+		if _, err := obs.LoadZSON(ctx, poolP, "main", "{k:999,u:999}"); err != nil && !r.SkipTipData {
 			fails = append(fails, fmt.Sprintf("usable: a fresh client cannot commit to branch main afterwards: %v", err))
 		}
 		return fails
